@@ -1,11 +1,18 @@
 package main
 
 import (
+	"bufio"
+	"crypto/sha256"
+	"encoding/hex"
+	"encoding/json"
 	"flag"
+	"fmt"
 	"os"
 	"path/filepath"
+	"regexp"
 	"strings"
 
+	"github.com/cosmos/cosmos-proto/zzverif/corpus"
 	"google.golang.org/protobuf/proto"
 	"google.golang.org/protobuf/reflect/protodesc"
 	"google.golang.org/protobuf/reflect/protoregistry"
@@ -16,7 +23,155 @@ import (
 	_ "github.com/cosmos/cosmos-proto/testpb"
 )
 
-func cmdPlugin(args []string) { die("not implemented") }
+type pluginCase struct {
+	Fp    string   `json:"fp"`
+	Pp    string   `json:"pp"`
+	Mp    string   `json:"mp"`
+	Flag  string   `json:"flag"`
+	Gen   []string `json:"gen"`
+	Kind  string   `json:"kind"`
+	Files []string `json:"files"`
+}
+
+type outFile struct {
+	File string `json:"file"` // universe letter
+	Name string `json:"name"`
+	Sha  string `json:"sha"`
+	Size int    `json:"size"`
+}
+
+type pluginEvent struct {
+	Ev string `json:"ev"`
+	pluginCase
+	Param    string    `json:"param"`
+	Run      int       `json:"run"`
+	Obs      string    `json:"obs"` // fatal | error | ok
+	Err      string    `json:"err"`
+	Out      []outFile `json:"out"`
+	Hermetic []string  `json:"hermetic"`
+}
+
+const mappedPath = corpus.GenPath + "/xbmapped"
+
+func paramOf(c pluginCase, u map[string]*corpus.File) string {
+	var ps []string
+	switch c.Fp {
+	case "absent":
+	case "unknown":
+		ps = append(ps, "features=nosuchfeature")
+	case "fast+unknown":
+		ps = append(ps, "features=fast+nosuchfeature")
+	case "empty":
+		ps = append(ps, "features=")
+	default:
+		ps = append(ps, "features="+c.Fp)
+	}
+	switch c.Pp {
+	case "absent":
+	default:
+		ps = append(ps, "paths="+c.Pp)
+	}
+	if c.Mp == "mapA" {
+		ps = append(ps, "M"+u["A"].Name+"="+mappedPath)
+	}
+	if c.Flag == "unknownflag" {
+		ps = append(ps, "nosuchflag=1")
+	}
+	return strings.Join(ps, ",")
+}
+
+var hermeticRe = regexp.MustCompile(`(/tmp/|/root/|/home/|/usr/lib/go|/var/|20[0-9][0-9]-[01][0-9]-[0-3][0-9]|[01][0-9]:[0-5][0-9]:[0-5][0-9])`)
+
+// cmdPlugin executes the request cases exported by spec/Plugin.tla, each R times in fresh
+// processes under different environments, and records what the plugin answered.
+func cmdPlugin(args []string) {
+	fs := flag.NewFlagSet("plugin", flag.ExitOnError)
+	plugin := fs.String("plugin", "", "plugin binary")
+	in := fs.String("in", "", "CASE lines")
+	out := fs.String("out", "", "events ndjson")
+	runs := fs.Int("runs", 3, "fresh processes per case")
+	stride := fs.Int("stride", 1, "execute every n-th case")
+	fs.Parse(args)
+	u := corpus.PluginUniverse()
+	universe := []*corpus.File{u["A"], u["xa2"], u["B"], u["C"], u["D"], u["E"]}
+	base := map[string]string{}
+	for k, f := range u {
+		base[strings.TrimSuffix(filepath.Base(f.Name), ".proto")] = k
+	}
+	f, err := os.Open(*in)
+	if err != nil {
+		die("%v", err)
+	}
+	defer f.Close()
+	of, _ := os.Create(*out)
+	defer of.Close()
+	w := bufio.NewWriter(of)
+	defer w.Flush()
+	sc := bufio.NewScanner(f)
+	sc.Buffer(make([]byte, 1<<20), 1<<26)
+	marker := "VERIFMARKERxyzzy"
+	host, _ := os.Hostname()
+	idx := 0
+	for sc.Scan() {
+		line := sc.Text()
+		if !strings.HasPrefix(line, "CASE ") {
+			continue
+		}
+		idx++
+		if idx%*stride != 0 {
+			continue
+		}
+		var c pluginCase
+		if err := json.Unmarshal([]byte(line[5:]), &c); err != nil {
+			die("case: %v", err)
+		}
+		var toGen []string
+		for _, g := range c.Gen {
+			toGen = append(toGen, u[g].Name)
+		}
+		param := paramOf(c, u)
+		req := BuildRequest(universe, toGen, param)
+		// protoc always passes the dependencies too; make sure an empty files_to_generate still
+		// carries the universe
+		if len(toGen) == 0 {
+			req = BuildRequest(universe, []string{u["A"].Name}, param)
+			req.FileToGenerate = nil
+		}
+		for r := 0; r < *runs; r++ {
+			tmp, _ := os.MkdirTemp("", "plug")
+			env := []string{"HOME=" + tmp, "TMPDIR=" + tmp, "PWD=" + tmp, "TZ=" + []string{"UTC", "Asia/Tokyo", "America/Lima"}[r%3],
+				"LANG=" + []string{"C", "en_US.UTF-8", "de_DE"}[r%3], "VERIF_MARKER=" + marker, "PATH=/usr/bin:/bin", "GOMAXPROCS=" + fmt.Sprint(1+r%4)}
+			resp, stderr, err := RunPlugin(*plugin, req, env)
+			os.RemoveAll(tmp)
+			ev := pluginEvent{Ev: "run", pluginCase: c, Param: param, Run: r, Out: []outFile{}, Hermetic: []string{}}
+			switch {
+			case err != nil:
+				ev.Obs, ev.Err = "fatal", trunc(err.Error()+": "+stderr, 300)
+			case resp.Error != nil:
+				ev.Obs, ev.Err = "error", trunc(resp.GetError(), 300)
+			default:
+				ev.Obs = "ok"
+				for _, gf := range resp.File {
+					sum := sha256.Sum256([]byte(gf.GetContent()))
+					b := strings.TrimSuffix(filepath.Base(gf.GetName()), ".pulsar.go")
+					ev.Out = append(ev.Out, outFile{File: base[b], Name: gf.GetName(), Sha: hex.EncodeToString(sum[:8]), Size: len(gf.GetContent())})
+					content := gf.GetContent()
+					if m := hermeticRe.FindString(content); m != "" {
+						ev.Hermetic = append(ev.Hermetic, gf.GetName()+": "+m)
+					}
+					for _, needle := range []string{marker, tmp, host} {
+						if needle != "" && strings.Contains(content, needle) {
+							ev.Hermetic = append(ev.Hermetic, gf.GetName()+": contains "+needle)
+						}
+					}
+				}
+			}
+			b, _ := json.Marshal(ev)
+			w.Write(b)
+			w.WriteByte('\n')
+		}
+	}
+}
 
 // checkedIn lists the proto files behind the checked-in *.pulsar.go files.
 var checkedIn = map[string][]string{
